@@ -152,6 +152,11 @@ impl Interpreter {
                         for _ in 1..=count as usize {
                             self.stmt(&repeat_times.body)?;
 
+                            // a RETURN inside the body ends the loop (and the procedure)
+                            if self.return_value.is_some() {
+                                break;
+                            }
+
                             // if the CONTINUE stmt was called handle it
                             if self.loop_stack.last().unwrap().should_continue {
                                 self.loop_stack.last_mut().unwrap().should_continue = false;
@@ -188,7 +193,12 @@ impl Interpreter {
 
                 while !Self::is_truthy(&self.expr(&repeat_until.condition)?) {
                     self.stmt(&repeat_until.body)?;
-                    
+
+                    // a RETURN inside the body ends the loop (and the procedure)
+                    if self.return_value.is_some() {
+                        break;
+                    }
+
                     // if the BREAK stmt was called handle it
                     if self.loop_stack.last().unwrap().should_break {
                         self.loop_stack.last_mut().unwrap().should_break = false;
@@ -248,6 +258,11 @@ impl Interpreter {
 
                     
                     self.stmt(&for_each.body)?;
+
+                    // a RETURN inside the body ends the loop (and the procedure)
+                    if self.return_value.is_some() {
+                        break;
+                    }
 
                     // if the BREAK stmt was called handle it
                     if self.loop_stack.last().unwrap().should_break {
@@ -333,8 +348,9 @@ impl Interpreter {
                         .loop_stack
                         .last()
                         .is_some_and(|lc| lc.should_break || lc.should_continue)
+                        || self.return_value.is_some()
                     {
-                        // if we are in a loop then we need to STOP execution
+                        // if we are in a loop (or returning from a procedure) then we need to STOP execution
                         break;
                     }
 
